@@ -157,13 +157,19 @@ def Kind.subTarget : Kind → Option Nat
   | .sub t => some t
   | _ => none
 
+/-- every enumeration an attribute kind refers to exists -/
+def Kind.enumOk (enums : List (List Str)) : Kind → Bool
+  | .oneOf e => decide (e < enums.length)
+  | .listElem k _ => Kind.enumOk enums k
+  | _ => true
+
 /-- what the generic theorems need of the element converters, for the values in `Dom`:
     a non-`None` value is written as a text whose wire image (`esc`) is non-empty and reads back
     to the same value; an optional element accepts `None`. -/
 structure ConvLaws (cv : Conv) (enums : List (List Str)) (esc : Str → Str)
     (Dom : Kind → Bool → Val → Prop) : Prop where
   none_ok : ∀ k, k.isList = false → k.isUnsupported = false → Kind.subTarget k = none →
-    cv.convert enums k false .none = .ok .none
+    Kind.enumOk enums k = true → cv.convert enums k false .none = .ok .none
   round : ∀ k r v, Dom k r v → v ≠ .none →
     ∃ s, cv.unconvert enums k r v = .ok (.str s) ∧ esc s ≠ [] ∧ cv.convert enums k r (.str (esc s)) = .ok v
 
@@ -210,6 +216,7 @@ structure ClsWF (S : Schema) (c : Cls) : Prop where
   nameOk : ∀ a ∈ c.spec, lower (upper a.name) = a.name ∧ '.' ∉ upper a.name
   subOk : ∀ a ∈ c.spec, ∀ t, (a.kind = .sub t ∨ a.kind = .listAgg t) →
     ∃ tc, S.cls? t = some tc ∧ lower tc.name = a.name ∧ '.' ∉ tc.name ∧ S.findIdx? tc.name = some t
+  enumOk : ∀ a ∈ c.spec, Kind.enumOk S.enums a.kind = true
   listBlock : ∀ (i j q : Nat) (ai aj aq : Attr), c.spec[i]? = some ai → ai.kind.isList = true → i < j →
     c.spec[j]? = some aj → aj.kind.isList = false → aj.kind.isUnsupported = false →
     c.spec[q]? = some aq → aq.kind.isList = true → q < j
@@ -832,6 +839,7 @@ theorem isInstance_self (ci : Nat) : isInstance S ci ci = true := by simp [isIns
 
 theorem setAttr_rt (laws : ConvLaws cv S.enums esc Dom) (a : Attr) (v : Node) (kw : List (Str × Node))
     (hl : a.kind.isList = false) (hu : a.kind.isUnsupported = false)
+    (hek : Kind.enumOk S.enums a.kind = true)
     (hfo : FieldOk Dom a v) (hkw : lookup a.name kw = rawField S cv esc a v) :
     setAttr S cv a ((lookup a.name kw).getD (.val .none)) = .ok (some v) := by
   unfold FieldOk at hfo
@@ -852,7 +860,7 @@ theorem setAttr_rt (laws : ConvLaws cv S.enums esc Dom) (a : Attr) (v : Node) (k
     by_cases hx : x = .none
     · subst hx
       have hr := hreq rfl
-      have := laws.none_ok a.kind hl hu hst
+      have := laws.none_ok a.kind hl hu hst hek
       simp [hkw, rawField, hset, Node.toVal, hr, this, Except.map]
     · obtain ⟨s, hunc, hne, hconv⟩ := laws.round a.kind a.required x (hdom hx) hx
       have hraw : rawField S cv esc a (.val x) = some (.val (.str (esc s))) := by
@@ -862,7 +870,7 @@ theorem setAttr_rt (laws : ConvLaws cv S.enums esc Dom) (a : Attr) (v : Node) (k
 theorem setAttrs_rt (laws : ConvLaws cv S.enums esc Dom) (kw : List (Str × Node)) :
     ∀ {L : List Attr} {fs : List (Str × Node)},
     FieldsMatch (fun a v => FieldOk Dom a v ∧ lookup a.name kw = rawField S cv esc a v) L fs →
-    (∀ a ∈ L, a.kind.isList = false) → setAttrs S cv L kw = .ok fs := by
+    (∀ a ∈ L, a.kind.isList = false ∧ Kind.enumOk S.enums a.kind = true) → setAttrs S cv L kw = .ok fs := by
   intro L fs h
   induction h with
   | nil => intro _; rfl
@@ -872,7 +880,7 @@ theorem setAttrs_rt (laws : ConvLaws cv S.enums esc Dom) (kw : List (Str × Node
     simp [setAttrs, setAttr, hk, ih (fun a ha => hl a (by simp [ha])), bind, Except.bind, pure, Except.pure]
   | field b v L fs hb hp _ ih =>
     intro hl
-    have := setAttr_rt S cv esc Dom laws b v kw (hl b (by simp)) hb hp.1 hp.2
+    have := setAttr_rt S cv esc Dom laws b v kw (hl b (by simp)).1 hb (hl b (by simp)).2 hp.1 hp.2
     simp [setAttrs, this, ih (fun a ha => hl a (by simp [ha])), bind, Except.bind, pure, Except.pure]
 
 
@@ -1009,7 +1017,7 @@ theorem node_rt (laws : ConvLaws cv S.enums esc Dom) (c : Cls) (ci : Nat) (field
     exact lookup_rawKwOf S cv esc fields c.spec ok.wf.nodup a hmem.1 hmem.2 hu v hlk
   have hset := setAttrs_rt S cv esc Dom laws (rawKwOf S cv esc fields c.spec) hfm2
     (fun a ha => by have : a ∈ c.spec ∧ a.kind.isList = false := by simpa [specNoList] using ha
-                    exact this.2)
+                    exact ⟨this.2, ok.wf.enumOk a this.1⟩)
   have hconstruct : construct S cv ci items (rawKwOf S cv esc fields c.spec) = .ok (.agg ci fields items) := by
     simp [construct, ok.hc, ok.validate, hset, applyArgs_rt S cv esc c items ok.hel ctx.itemsOk,
       applyResidual_rt S cv esc c fields, bind, Except.bind, pure, Except.pure]
